@@ -11,6 +11,9 @@ import (
 
 	"github.com/go-i2p/common/data"
 	"github.com/go-i2p/common/key_certificate"
+	"github.com/go-i2p/common/lease_set2"
+	"github.com/go-i2p/common/router_address"
+	"github.com/go-i2p/common/router_info"
 )
 
 func init() { props["C18"] = runC18 }
@@ -200,9 +203,51 @@ func runC18(c *Ctx) {
 				}
 				w = encodeMapping(kvs)
 			}
+			if k%4 == 3 {
+				// a mapping whose declared size covers 1-5 trailing bytes that form no pair (accepted
+				// by the parser: recorded finding D2): a value in a state no constructor produces
+				junk := [][]byte{{0xde}, {0xde, 0xad}, {1, 'k', '='}, {0, 0, 0, 0}, {0xde, 0xad, 0xbe, 0xef, 0x01}}[r.Intn(5)]
+				switch p.Name {
+				case "ReadMapping":
+					w = withSlack(encodeMapping(genKVs(r, 4)), 0, junk)
+				case "ReadRouterAddress":
+					a := genRouterAddr(r)
+					e := a.Encode()
+					w = withSlack(e, len(e)-len(encodeMapping(a.Opts)), junk)
+				case "ReadLeaseSet2":
+					l := genLeaseSet2(r)
+					e := l.Encode()
+					h := l.H.Encode()
+					w = withSlack(e, len(h)-len(encodeMapping(l.H.Options)), junk)
+				case "ReadRouterInfo":
+					ri := genRouterInfo(r)
+					e := ri.Encode()
+					w = withSlack(e, len(e)-len(ri.Sig)-len(encodeMapping(ri.Opts)), junk)
+				}
+			}
 			var extra [][]byte
 			if p.Extra != nil {
 				extra = p.Extra(r)
+			}
+			// parsed by the library's reader directly, so that the frame check below sees the value
+			// before ANY method has been called on it (the table's Run serialises the value at once)
+			switch {
+			case k%4 == 3 && p.Name == "ReadMapping":
+				if m, _, errs := data.ReadMapping(cp(w)); !mappingFatal(errs) {
+					values = append(values, shared{p.Name + "(fresh)", &m, w})
+				}
+			case k%4 == 3 && p.Name == "ReadRouterAddress":
+				if a, _, err := router_address.ReadRouterAddress(cp(w)); err == nil {
+					values = append(values, shared{p.Name + "(fresh)", &a, w})
+				}
+			case k%4 == 3 && p.Name == "ReadLeaseSet2":
+				if l, _, err := lease_set2.ReadLeaseSet2(cp(w)); err == nil {
+					values = append(values, shared{p.Name + "(fresh)", &l, w})
+				}
+			case k%4 == 3 && p.Name == "ReadRouterInfo":
+				if ri, _, err := router_info.ReadRouterInfo(cp(w)); err == nil {
+					values = append(values, shared{p.Name + "(fresh)", &ri, w})
+				}
 			}
 			res := p.Run(cp(w), extra)
 			if res.OK && res.Val != nil {
@@ -276,4 +321,18 @@ func runC18(c *Ctx) {
 		}
 		runParser(c, p, w, extra)
 	}
+}
+
+// withSlack: w with the mapping at offset off enlarged by the junk bytes (size field raised,
+// junk placed after the mapping's pairs)
+func withSlack(w []byte, off int, junk []byte) []byte {
+	if off < 0 || off+2 > len(w) {
+		return w
+	}
+	size := int(w[off])<<8 | int(w[off+1])
+	end := off + 2 + size
+	if end > len(w) || size+len(junk) > 65535 {
+		return w
+	}
+	return cat(w[:off], u16(size+len(junk)), w[off+2:end], junk, w[end:])
 }
